@@ -59,6 +59,7 @@ def function_candidates():
     return out
 
 
+RANDOMISED = {"random_edge_shuffle"}
 METHODS = method_candidates()
 FUNCTIONS = function_candidates()
 CANDS = sorted(list(METHODS) + list(FUNCTIONS))
@@ -342,7 +343,10 @@ def run_case(case, ctx):
             call(Cp, key, cand, synth(H, key, name, sig, case["picks"]), case["picks"])
         except Exception as e:  # noqa: BLE001
             ctx.check(p1 == "raised", ("copy-of-frozen", key + "." + name, "copy-refuses-the-mutation"), lambda: "%r" % (e,))
-        ctx.check(nets.structure(Cp) != cb, ("copy-of-frozen", key + "." + name, "copy-not-editable"), lambda: "args %r" % (kw,))
+        # a randomised rewiring may be the identity on one of two equal networks and not on the other (set iteration order differs
+        # between a built network and its copy), so "the copy changed" is only demanded of deterministic candidates
+        if name not in RANDOMISED:
+            ctx.check(nets.structure(Cp) != cb, ("copy-of-frozen", key + "." + name, "copy-not-editable"), lambda: "args %r" % (kw,))
     ctx.mark(mutates)
 
 
